@@ -14,6 +14,16 @@ CLAIMED = {
          "orders as distinct inputs), '&&' variants and every byte in 5 spellings, plus seeded random queries; permutation-, "
          "respelling-, '&&'-invariance, sortedness and multiset preservation are model-checked on the specification, with a "
          "negative control (rendered-string sort must violate them).", "5 C10"),
+ "C06": ("KeyTerms/KeyChain.tla symbolic HMAC chain; method-path machine model-checked; derivations replayed; TLC trace validation of oracle wiring",
+         "Path-independence of all 10 public derivation methods model-checked on symbolic terms; from_str acceptance for 13 "
+         "lengths x 8 capacities; derivation for 8 secrets x 18 dates x 36 region/service pairs through every method path plus "
+         "random inputs; TLC checks that what is hashed is exactly the SigV4 chain and that every library output equals the "
+         "harness-evaluated term.", "5 C06"),
+ "C16": ("Iso8601.tla/Civil.tla reference parser; TLC-enumerated field sweeps + random mutated timestamps; TLC trace validation",
+         "Exhaustive field sweeps (each 2-digit field 00..99, calendars of five years, all offsets, fractions 0..12, all "
+         "separator combinations, affixes) and random mutated timestamps go through the library's authenticator factory; "
+         "TLC re-parses each recorded string and requires the exact UTC instant, compact UTC line and scope date, or the "
+         "ISO-8601 error, with stated don't-cares.", "5 C16"),
 }
 
 NOT_YET = {}
